@@ -64,7 +64,7 @@ CHECKS = {
                       technique="PBT over worker-state mixes x stop/resize/mode-switch under dsched's virtual clock; oracle = no backstop jump + thread-table census + deadlock/livelock detector"),
     "C46": pool_check("Inline task execution never grows the stack without bound",
                       "Chains of L tasks each scheduling the next under overload (pool.schedule, TaskSet, ConcurrentTaskSet light/heavy, bulk); metamorphic oracle: the per-thread nesting depth for a 6-10x longer chain may not exceed depth(L)+4 unless it stays under an absolute constant (48).",
-                      [e1("pool", "chain")], "§4 C46",
+                      [e1("pool", "chain", quick=1500)], "§4 C46",
                       technique="metamorphic PBT (chain length L vs scale*L) with a per-thread nesting counter, executed under dsched"),
     "C47": pool_check("ForceQueuingTag never runs the functor on the caller",
                       "C01/C02-style programs on pools >= 1 thread with small load multipliers (inline paths reachable); each force-queued body checks it is not running on its submitter before the submitting call returned.",
@@ -364,11 +364,11 @@ CONC_NOTE = SC_NOTE + " Elements are tagged, heap-owning objects; real-time orde
 CHECKS.update({
     "C33": pool_check("ConcurrentVector concurrent growth is exact",
                       "2-4 growers with generated lists over push_back / emplace_back / grow_by(n,v) / grow_by_generator / grow_by(range) / grow_to_at_least, 264-byte elements (first bucket of 2, so a few elements cross bucket boundaries), three trait sets (default, half-buffer-ahead + heap buffer table + compact iterators, full-buffer-ahead), 0-2 readers re-reading published elements through saved references, 0-3 pre-existing elements. Every index handed out once, every tag present exactly once at its owner's index, size == total growth (>= with grow_to_at_least, extra elements default constructed), saved references still valid; the iterator returned by grow_to_at_least denotes an element of the vector; begin() / end() taken by readers during the growth: end() lies between size() before and after the call and compares equal to the iterator of its position once the growth is over.",
-                      [e1("conc", "cvgrow")], "§4 C33",
+                      [e1("conc", "cvgrow", quick=5000)], "§4 C33",
                       technique="PBT over grower op lists x traits under generated dsched schedules; oracle = index ownership map + tag multiset + reference stability + iterator validity (distance and equality against begin()+d after the join)", note=CONC_NOTE),
     "C34": pool_check("MpmcRingBuffer is an exactly-once bounded FIFO",
                       "Capacities 2, 3 (exact), 4, 5 (exact), 3 rounded to 4, 8; 2-4 threads with lists over try_push / try_emplace / try_push_batch(2,3) / try_pop(T&) / try_pop() / try_pop_into. Ledger: every popped tag was pushed, none twice; occupancy lower bound never above capacity(); FIFO in real time (a pushed entirely before b is never popped entirely after it, nor left in the ring when b was popped); at quiescence size/empty/full agree, exactly capacity-size pushes succeed, the drain is FIFO; all element objects destroyed once the ring is gone. Failure of a single operation under contention is allowed (documented fail-fast).",
-                      [e1("conc", "mpmc")], "§4 C34-C36", technique="PBT over producer/consumer op lists x capacities under generated dsched schedules; oracle = exactly-once ledger + occupancy bound + real-time FIFO + quiescent exactness + lifetime balance", note=CONC_NOTE),
+                      [e1("conc", "mpmc", quick=6000)], "§4 C34-C36", technique="PBT over producer/consumer op lists x capacities under generated dsched schedules; oracle = exactly-once ledger + occupancy bound + real-time FIFO + quiescent exactness + lifetime balance", note=CONC_NOTE),
     "C35": pool_check("SPSCRingBuffer is an exactly-once bounded FIFO",
                       "Capacities 1, 2 (exact), 3 (rounded), 5 (exact), 8 (rounded); exactly one producer thread (try_push by rvalue / lvalue / try_emplace / try_push_batch) and one consumer thread (try_pop variants, try_pop_batch). The consumer must receive 0,1,2,... exactly; a push may fail only if the ring could have been full given the pops completed before the call, a pop only if it could have been empty; quiescent exactness and lifetime balance as C34.",
                       [e1("conc", "spsc")], "§4 C34-C36", technique="PBT over producer and consumer op lists x capacities under generated dsched schedules; oracle = strict sequence check + may-fail-only-if rules + quiescent exactness", note=CONC_NOTE),
@@ -377,20 +377,20 @@ CHECKS.update({
                       [e1("conc", "cld"), e1("conc", "cld", variant="dschedF", quick=3000, thorough=80000), nat("conc", "cld", quick=1500, thorough=60000)], "§4 C34-C36", technique="PBT over owner / thief op lists x payload type (int, 32-byte POD whose words all encode the id) under generated dsched schedules, at atomic-operation granularity and at plain-memory-access granularity (slot copies are then schedule points), and natively with real threads; oracle = exactly-once ledger + torn-copy detector + owner-stack model + interval-based oldest-first rule + quiescent exactness", note=CONC_NOTE + " Fence-based reasoning on weaker hardware models is out of E1's reach (see C10)."),
     "C37": pool_check("ConcurrentObjectArena growth and copies are exact",
                       "Buffer sizes 1, 2, 3, 4, 8 (rounded up to powers of two by the class), 1-4 growers with grow_by(0..9) lists (any resulting buffer count: 1..64), then one of copy construction, copy assignment, move assignment, swap, move construction. Ranges disjoint and covering [0,size()); every new element default constructed (recognisable member initialisers) before its grower claims it; a reference taken before the growth stays valid; the copy / moved / swapped arena has the same size and contents and does not alias the original.",
-                      [e1("conc", "arena")], "§4 C37", technique="PBT over grower lists x buffer sizes x copy operation under generated dsched schedules; oracle = index ownership map + default-value check + element-wise comparison of copies", note=CONC_NOTE),
+                      [e1("conc", "arena", quick=6000)], "§4 C37", technique="PBT over grower lists x buffer sizes x copy operation under generated dsched schedules; oracle = index ownership map + default-value check + element-wise comparison of copies", note=CONC_NOTE),
     "C41": pool_check("SmallBufferAllocator hands out exclusive aligned blocks",
                       "Block sizes 8-256; 1-4 threads in 1-2 waves (threads of the first wave exit with cached blocks) with lists over alloc, dealloc, bursts of 10-40 allocations (central-store refill), hand-over of a block to another thread that frees it, approxBytesAllocatedSmallBuffer. Every block aligned to its size; a block carries its owner's canary from alloc to free: receiving a block that still carries a live canary, or finding one's canary overwritten, is a violation; diagnostics return sane values. Second part: the same programs with real threads under ThreadSanitizer (any report = violation) - the consequence of a broken internal lock is a race on plain memory, which the schedule explorer cannot see.",
                       [e1("conc", "sba"), nat("conc", "sba", variant="tsan", quick=2000, thorough=60000)], "§4 C41",
                       technique="PBT over alloc/free histories under generated dsched schedules (canary ownership oracle) + the same generator natively under TSan (happens-before race detector as oracle)", note=CONC_NOTE),
     "C42": pool_check("PoolAllocator hands out exclusive chunks within its slabs",
                       "Thread-safe and no-lock allocator, chunk sizes 8-100, slabs of 1-6 chunks plus odd remainders, counting allocFunc/deallocFunc; 1-4 threads (1 for the no-lock variant) with alloc/dealloc lists, optional clear() followed by 0-12 allocations. Every chunk inside a slab obtained from allocFunc at a chunk-multiple offset, never handed out while its canary is live, canaries never overwritten; after clear() no allocFunc call until the existing slabs' capacity is used up; deallocFunc called exactly once per slab by the destructor.",
-                      [e1("conc", "pool")], "§4 C42", technique="PBT over alloc/dealloc/clear histories under generated dsched schedules; oracle = slab ledger + chunk canaries + allocFunc call counting", note=CONC_NOTE),
+                      [e1("conc", "pool", quick=6000)], "§4 C42", technique="PBT over alloc/dealloc/clear histories under generated dsched schedules; oracle = slab ledger + chunk canaries + allocFunc call counting", note=CONC_NOTE),
 })
 
 CHECKS.update({
     "C26": pool_check("TimedTask run count, cancellation and teardown",
                       "A private TimedTaskScheduler under the virtual clock (hook: getTime() through std::chrono); executors ImmediateInvoker and ThreadPool(1-2); periods 0 / 20 us / 0.3 ms / 2 ms, timesToRun 1-5 and unbounded, steady and normal, first run in the past / now / future, a run that returns false at a generated index, and a controller that lets the task finish, cancels, destroys or detaches+destroys it at a generated virtual instant. Invocations <= timesToRun; nothing before the first scheduled time (10 us firing margin); after a false return / after cancel() returned at most the invocations already past their check (<= number of executors, 0 further for ImmediateInvoker) may begin; after a non-detached destructor returned no invocation is in progress and none ever starts; the function object is never invoked after destruction and every copy of it is destroyed in the end. Crashes (terminate, SIGSEGV with heap poisoning) are violations.",
-                      [e1("timed", "timed")], "§4 C26",
+                      [e1("timed", "timed", quick=6000)], "§4 C26",
                       technique="PBT over (executor, period, count, first-run time, false-return index, controller action and instant) under generated dsched schedules and the virtual clock; oracle = invocation log with virtual timestamps + function-object lifetime counters + crash detection with poisoned heap"),
 })
 
